@@ -1,6 +1,7 @@
 """C16 – calling conventions are the declared ones, or the documented defaults."""
 from .world import *
 import re
+from .c04 import node_at
 
 ID = 'C16'
 POINTS = ['o2', 'o3']
@@ -32,12 +33,23 @@ def generate(rng, tier):
             p, nd = rng.choice(cands)
             c = replace_at(c, p, [nd[0], nd[1], e_str(rng.choice(BAD))])
         out.append(c)
+    # the same on functions with `_`-prefixed ("internal") names, which get no wrapper but are validated all the same
+    ou = gen.Opts(p_vftable=0.4, p_impl=0.9, p_cc=0.8, p_base=0.3, p_enum=0.0, max_modules=2, max_items=4, p_underscore=0.6)
+    for i in range(n // 5):
+        c = gen.world(rng, 'ubad%d' % i, opts=ou)
+        cands = [(p, nd) for p, nd in all_nodes(c) if tag(nd) == 'af' and nd[1] == 'calling_convention'
+                 and (lambda q: q is not None and tag(q) == 'fn' and fn_name(q).startswith('_'))(node_at(c, p[:-2]))]
+        if cands:
+            p, nd = rng.choice(cands)
+            c = replace_at(c, p, [nd[0], nd[1], e_str(rng.choice(BAD))])
+        out.append(c)
     # a derived table that repeats an inherited slot with another (or a forgotten) convention
     from .c06 import mutate_derived
     o2 = gen.Opts(p_vftable=0.7, p_base=0.8, p_cc=0.7, p_enum=0.0, p_impl=0.1, p_backend=0.0, p_extern_val=0.0,
                   max_modules=2, max_items=6, max_fields=2, p_packed=0.0)
     for i in range(n // 3):
-        m = mutate_derived(rng, gen.world(rng, 'inh%d' % i, opts=o2), kinds=('cc',))
+        o2.p_underscore = 0.5 if i % 2 else 0.0
+        m = mutate_derived(rng, gen.world(rng, 'inh%d' % i, opts=o2), kinds=('cc', 'gap'))
         if m is not None:
             out.append(m)
     return out
